@@ -98,7 +98,7 @@ fn mutation() -> BoxedStrategy<Mutation> {
 }
 
 fn forged_handshake() -> BoxedStrategy<Op> {
-    let signer = prop_oneof![6 => (0u8..2).prop_map(Signer::Adv), 1 => Just(Signer::Garbage), 1 => Just(Signer::Empty), 1 => Just(Signer::Truncated), 2 => (0u8..2, 0u8..6).prop_map(|(j, t)| Signer::AdvExtended(j, t))];
+    let signer = prop_oneof![6 => (0u8..2).prop_map(Signer::Adv), 1 => Just(Signer::Garbage), 1 => Just(Signer::Empty), 1 => Just(Signer::Truncated), 2 => (0u8..2, 0u8..6).prop_map(|(j, t)| Signer::AdvExtended(j, t)), 2 => Just(Signer::Observed)];
     let eph = prop_oneof![6 => Just(EphKey::Valid), 1 => Just(EphKey::InvalidPoint), 1 => Just(EphKey::WrongLength)];
     let seq = prop_oneof![1 => Just(SeqSel::Zero), 1 => Just(SeqSel::BelowKnown), 1 => Just(SeqSel::EqualKnown), 3 => Just(SeqSel::AboveKnown), 1 => Just(SeqSel::Max)];
     let af = prop_oneof![2 => Just(AddrField::MatchingSource), 1 => Just(AddrField::Other), 1 => Just(AddrField::Absent)];
@@ -137,6 +137,7 @@ pub fn op_strategy(n_peers: u8, mix: Mix) -> BoxedStrategy<Op> {
         (1, (node(), any::<u16>()).prop_map(|(node, sel)| Op::RespondOtherKind { node, sel }).boxed()),
         (1, (node(), any::<u16>()).prop_map(|(node, sel)| Op::RespondWithForeignId { node, sel }).boxed()),
         (1, (peer(), node(), 0u8..3).prop_map(|(peer, to, variant)| Op::UndecodableMessage { peer, to, variant }).boxed()),
+        (1, (peer(), any::<bool>(), prop_oneof![3 => Just(true), 1 => Just(false)]).prop_map(|(peer, ip, on)| Op::Ban { peer, ip, on }).boxed()),
     ];
     let probe = (xsel(), 0u8..3).prop_map(|(x, z)| Op::Probe { x, z }).boxed();
     let forged_msg = (xsel(), 0u8..3, prop_oneof![Just(ForgedBody::Ping), Just(ForgedBody::Talk), Just(ForgedBody::Garbage)])
@@ -187,6 +188,7 @@ pub fn op_strategy(n_peers: u8, mix: Mix) -> BoxedStrategy<Op> {
         }
         Mix::Replay => {
             all.push((14, replay));
+            all.push((3, (node(), any::<u16>(), any::<bool>()).prop_map(|(node, sel, handshaken_only)| Op::WhoAreYouForInflight { node, sel, handshaken_only }).boxed()));
             all.push((4, replay_hs));
             all.push((6, forged_wru));
             all.push((2, probe));
@@ -229,16 +231,22 @@ pub fn ops_strategy(n_peers: u8, mix: Mix, max_fragments: usize) -> BoxedStrateg
     // knocking in between: request -> WHOAREYOU -> handshake (held back) ... time ... a second request
     // of the same peer (undecryptable for the challenger, who still has no session) ... time ...
     // the held handshake is delivered more than a challenge lifetime after the WHOAREYOU
-    let late_handshake = (0u8..n, 0u8..n, prop_oneof![Just(Dt::TimeoutFrac40), Just(Dt::Timeout)], 1usize..=3, any::<bool>())
-        .prop_map(|(from, to, last, knocks, with_record)| {
+    let late_handshake = (0u8..n, 0u8..n, prop_oneof![Just(Dt::TimeoutFrac40), Just(Dt::Timeout)], 1usize..=3, any::<bool>(), any::<bool>())
+        .prop_map(|(from, to, last, knocks, with_record, own_requests)| {
             let answer = |node: u8| Op::AnswerWru { node, sel: 0, know: Know::Current };
             let mut v = vec![Op::DeliverAll, Op::Submit { from, to, body: Body::Ping, with_record }, Op::Deliver(0), answer(to), Op::Deliver(0)];
             // the handshake is in the pool now and stays there
             v.push(Op::Advance(Dt::TimeoutFrac40));
-            for _ in 0..knocks {
+            for k in 0..knocks {
                 v.push(Op::Submit { from, to, body: Body::Ping, with_record });
                 v.push(Op::Deliver(65535));
                 v.push(answer(to));
+                if own_requests {
+                    // the challenger's application asks the challenged peer something itself (the request
+                    // waits behind the challenge)
+                    v.push(Op::Advance(Dt::TimeoutFrac40));
+                    v.push(Op::Submit { from: to, to: from, body: if k % 2 == 0 { Body::Ping } else { Body::Talk(k as u8) }, with_record: true });
+                }
             }
             v.push(Op::Advance(Dt::TimeoutFrac40));
             v.push(Op::Advance(last));
@@ -376,13 +384,34 @@ pub fn ops_strategy(n_peers: u8, mix: Mix, max_fragments: usize) -> BoxedStrateg
         ]
     })
     .boxed();
+    // V (session cache of ONE in the cases that carry this fragment's config) has sent its handshake to
+    // p1 - the packet is still on its way - when p2 connects and takes the only cache slot; then a
+    // second WHOAREYOU for V's request to p1 arrives
+    let second_wru_after_eviction = (any::<bool>(), any::<bool>()).prop_map(move |(with_record, swap)| {
+        let (p1, p2) = if swap && n_peers >= 2 { (2u8, 1u8) } else { (1u8, 2u8.min(n_peers.max(1))) };
+        vec![
+            Op::DeliverAll,
+            Op::Submit { from: 0, to: p1, body: Body::Ping, with_record },
+            Op::Deliver(0),
+            Op::AnswerWru { node: p1, sel: 0, know: Know::Current },
+            Op::Deliver(0),
+            Op::Submit { from: p2, to: 0, body: Body::Ping, with_record: true },
+            Op::Deliver(65535),
+            Op::AnswerWru { node: 0, sel: 0, know: Know::Current },
+            Op::Deliver(65535),
+            Op::Deliver(65535),
+            Op::WhoAreYouForInflight { node: 0, sel: 0, handshaken_only: true },
+            Op::DeliverAll,
+        ]
+    })
+    .boxed();
     // requests to more addresses at once than any table of awaited addresses could be expected to hold
     let crowd = (1030u16..1300, prop_oneof![Just(Dt::Ms1), Just(Dt::TimeoutFrac40)]).prop_map(|(n, dt)| vec![Op::DeliverAll, Op::SubmitToMany { n }, Op::Advance(dt)]).boxed();
     let frag = match mix {
         Mix::Identity => prop_oneof![18 => single, 12 => attack, 2 => spoof_race, 1 => early_replay, 2 => replay_accepted].boxed(),
         Mix::Exemptions => prop_oneof![2400 => single, 400 => attack, 1 => crowd].boxed(),
-        Mix::Tamper => prop_oneof![30 => single, 6 => exchange, 1 => spoof_race, 1 => old_key_fallback].boxed(),
-        Mix::Replay => prop_oneof![30 => single, 6 => exchange, 1 => late_handshake, 1 => early_replay, 2 => replay_accepted].boxed(),
+        Mix::Tamper => prop_oneof![30 => single, 6 => exchange, 1 => spoof_race, 1 => old_key_fallback, 1 => early_replay.clone()].boxed(),
+        Mix::Replay => prop_oneof![30 => single, 6 => exchange, 1 => late_handshake, 1 => early_replay, 2 => replay_accepted, 1 => second_wru_after_eviction].boxed(),
         _ => prop_oneof![60 => single, 1 => burst_fail, 2 => slow_challenge].boxed(),
     };
     proptest::collection::vec(frag, 1..max_fragments)
